@@ -190,9 +190,7 @@ def step (st : St) (l : String) : St × String :=
   | ["tb", bl, it] =>
     match bytesOfHex bl, parseItem st it with
     | some bloom, some b =>
-      -- Impl: hashes big.Int.Bytes(); Spec: the lookup on the full bytes (a corrected TestBytes is accepted as spec-ok)
-      let H := mkH (memo st.poolH [b, beBytes (beNat b)])
-      (st, verdict (toString (bloomTestBytes H bloom b)) go (go == toString (bloomLookup H bloom b)) "TestBytes-differs")
+      (st, verdict (toString (bloomTestBytes (mkH st.poolH) bloom b)) go false "TestBytes-differs-from-BloomLookup")
     | _, _ => bad
   | ["bf", bl, a, t] =>
     match bytesOfHex bl, parseCrit st a t with
